@@ -1759,6 +1759,49 @@ impl TInputProtocol for TCompactInputProtocol<&mut Bytes> {
     }
 }
 
+// Verification hooks (add-only, compiled only with `--cfg pilota_verif`): project the
+// private field-id / pending-bool state so that an external harness can compare it with a model.
+#[cfg(pilota_verif)]
+impl<T> TCompactOutputProtocol<T> {
+    #[doc(hidden)]
+    pub fn verif_state(&self) -> (i16, Vec<i16>, Option<Option<i16>>) {
+        (
+            self.last_write_field_id,
+            self.write_field_id_stack.clone(),
+            self.pending_write_bool_field_identifier
+                .as_ref()
+                .map(|f| f.id),
+        )
+    }
+}
+
+#[cfg(pilota_verif)]
+impl<T> TCompactInputProtocol<T> {
+    #[doc(hidden)]
+    pub fn verif_state(&self) -> (i16, Vec<i16>, Option<bool>, Option<Option<i16>>) {
+        (
+            self.last_read_field_id,
+            self.read_field_id_stack.clone(),
+            self.pending_read_bool_value,
+            self.pending_read_bool_field_identifier
+                .as_ref()
+                .map(|f| f.id),
+        )
+    }
+}
+
+#[cfg(pilota_verif)]
+impl<R> TAsyncCompactProtocol<R> {
+    #[doc(hidden)]
+    pub fn verif_state(&self) -> (i16, Vec<i16>, Option<bool>) {
+        (
+            self.last_read_field_id,
+            self.read_field_id_stack.clone(),
+            self.pending_read_bool_value,
+        )
+    }
+}
+
 #[cfg(test)]
 mod tests {
     use std::io::Read;
